@@ -6,6 +6,51 @@ use std::fmt;
 use std::str::FromStr;
 use utils::from_celsius_to_kelvin;
 
+/// Write an expression back as text: the fully parenthesized infix form of its tokens
+/// (parsing the text gives the same expression)
+fn expr_to_string(expr: &meval::Expr) -> String {
+  use meval::tokenizer::{Operation, Token};
+  let symbol = |op: &Operation| match op {
+    Operation::Plus => "+",
+    Operation::Minus => "-",
+    Operation::Times => "*",
+    Operation::Div => "/",
+    Operation::Rem => "%",
+    Operation::Pow => "^",
+  };
+  // expr is in reverse polish notation
+  let mut stack: Vec<String> = vec![];
+  for token in expr.iter() {
+    match token {
+      Token::Number(x) => stack.push(format!("{}", x)),
+      Token::Var(name) => stack.push(name.clone()),
+      Token::Unary(op) => {
+        let a = stack.pop().unwrap_or_default();
+        stack.push(format!("({}{})", symbol(op), a));
+      }
+      Token::Binary(op) => {
+        let b = stack.pop().unwrap_or_default();
+        let a = stack.pop().unwrap_or_default();
+        stack.push(format!("({} {} {})", a, symbol(op), b));
+      }
+      Token::Func(name, nargs) => {
+        let n = nargs.unwrap_or(1).min(stack.len());
+        let args = stack.split_off(stack.len() - n);
+        stack.push(format!("{}({})", name, args.join(", ")));
+      }
+      Token::LParen | Token::RParen | Token::Comma => {}
+    }
+  }
+  stack.pop().unwrap_or_default()
+}
+
+fn serialize_expr<S>(expr: &meval::Expr, serializer: S) -> Result<S::Ok, S::Error>
+where
+  S: serde::Serializer,
+{
+  serializer.serialize_str(&expr_to_string(expr))
+}
+
 /// A mathematical expression for a crystal's refractive indices
 #[derive(Debug, Clone, PartialEq, Serialize, Deserialize)]
 #[serde(untagged)]
@@ -13,22 +58,22 @@ pub enum CrystalExpr {
   /// A Uniaxial crystal
   Uniaxial {
     /// The ordinary refractive index
-    #[serde(skip_serializing)]
+    #[serde(serialize_with = "serialize_expr")]
     no: meval::Expr,
     /// The extraordinary refractive index
-    #[serde(skip_serializing)]
+    #[serde(serialize_with = "serialize_expr")]
     ne: meval::Expr,
   },
   /// A Biaxial crystal
   Biaxial {
     /// The x refractive index
-    #[serde(skip_serializing)]
+    #[serde(serialize_with = "serialize_expr")]
     nx: meval::Expr,
     /// The y refractive index
-    #[serde(skip_serializing)]
+    #[serde(serialize_with = "serialize_expr")]
     ny: meval::Expr,
     /// The z refractive index
-    #[serde(skip_serializing)]
+    #[serde(serialize_with = "serialize_expr")]
     nz: meval::Expr,
   },
 }
